@@ -264,6 +264,23 @@ class OrderIndicator(Indicator, list):
         for item in value:
             if item is NotSet:
                 raise ValidationError("No value set", path=render_path)
+        self._validate_occurs(value, render_path)
+
+    def _validate_occurs(self, value, render_path):
+        if not self.accepts_multiple:
+            return
+        if len(value) < self.min_occurs:
+            raise ValidationError(
+                "Expected at least %d items (minOccurs check) %d items found."
+                % (self.min_occurs, len(value)),
+                path=render_path,
+            )
+        if self.max_occurs != "unbounded" and len(value) > self.max_occurs:
+            raise ValidationError(
+                "Expected at most %d items (maxOccurs check) %d items found."
+                % (self.max_occurs, len(value)),
+                path=render_path,
+            )
 
     def signature(self, schema=None, standalone=True):
         parts = []
@@ -520,6 +537,7 @@ class Choice(OrderIndicator):
 
         if not found and not self.is_optional:
             raise ValidationError("Missing choice values", path=render_path)
+        self._validate_occurs(value, render_path)
 
     def accept(self, values):
         """Return the number of values which are accepted by this choice.
